@@ -5,7 +5,12 @@ sys.path.insert(0, os.path.join(os.path.dirname(os.path.dirname(os.path.abspath(
 import gen
 
 
-def scenario_code(idx, lists, undefined, K):
+def scenario_code(idx, lists, undefined, K, nested=None):
+    """nested (default: every third scenario): the definition container names its method with a nested
+    `method` typedef while its first template argument is ANOTHER method class (X) with the same signature:
+    every definition must go to the named method, none to X."""
+    if nested is None:
+        nested = idx % 3 == 1
     n = len(lists)
     ns = "s%d" % idx
     vparams = ", ".join("virtual_<Base&>" for _ in range(n))
@@ -14,13 +19,18 @@ def scenario_code(idx, lists, undefined, K):
     o.append("namespace %s {" % ns)
     o.append("struct key;")
     o.append("using M = method<key, int(%s), pol>;" % vparams)
+    o.append("struct xkey;")
+    o.append("using X = method<xkey, int(%s), pol>;" % vparams)
+    first = "X" if nested else "M"
     o.append("template<typename Method, typename... T> struct definition {")
+    if nested:
+        o.append("    using method = M;")
     o.append("    static int fn(T&... a) { g_ran.clear(); (g_ran.push_back(T::idx), ...); return 0; }")
     o.append("};")
     for u in undefined:
-        o.append("template<> struct definition<M, %s> : not_defined {};" % ", ".join("C<%d>" % c for c in u))
+        o.append("template<> struct definition<%s, %s> : not_defined {};" % (first, ", ".join("C<%d>" % c for c in u)))
     o.append("using P = product<%s>;" % tl)
-    o.append("use_definitions<definition, product<types<M>, %s>> reg;" % tl)
+    o.append("use_definitions<definition, product<types<%s>, %s>> reg;" % (first, tl))
     o.append("void run() {")
     o.append('    std::string s = "{\\"e\\":\\"tmpl\\",\\"id\\":%d,\\"K\\":%d,\\"lists\\":%s,\\"undefined\\":%s,\\"product\\":[";' %
              (idx, K, str([list(l) for l in lists]).replace(" ", ""), str([list(u) for u in undefined]).replace(" ", "")))
@@ -35,7 +45,7 @@ def scenario_code(idx, lists, undefined, K):
     o.append("        for (auto p = d.vp_begin; p != d.vp_end; ++p) { s += (f2 ? \"\" : \",\") + std::to_string(class_of(*p)); f2 = false; }")
     o.append('        s += "]";')
     o.append("    }")
-    o.append('    s += "],\\"calls\\":[";')
+    o.append('    s += "],\\"other\\":" + std::to_string(X::fn.specs.size()) + ",\\"calls\\":[";')
     o.append("    int ncalls = 0; first = true;")
     o.append("    int t[%d];" % n)
     loops = ""
